@@ -2,7 +2,8 @@
    This file holds ONLY the property theorems (each closed by `exact`) and their non-vacuity
    examples. Strings are lists of Unicode code points (N). *)
 From Coq Require Import List NArith Bool String Ascii Sorted Permutation.
-From IB Require Import IO.Regex IO.CloudGlob Proofs.CloudGlobProofs Proofs.CloudGlobRoundtrip.
+From IB Require Import IO.Regex IO.CloudGlob IO.CloudStore Proofs.CloudGlobProofs
+  Proofs.CloudGlobRoundtrip Proofs.CloudStoreProofs.
 Import ListNotations.
 Open Scope N_scope.
 
@@ -261,3 +262,291 @@ Example c19_read_glob_concat_ex :
   read_glob ex_de ex_dec st (str "d/*") = Ok [false; false; true] /\
   read_glob ex_de ex_dec st (str "**") = Ok [false; false; true; true; true].
 Proof. cbv zeta. split; vm_compute; reflexivity. Qed.
+
+(* ====================================================================================== *)
+(* One store, several buckets, sequences of calls (model: IO/CloudStore.v)                 *)
+(* ====================================================================================== *)
+
+(* split conjunctions only (never an equation), then compute each part *)
+Ltac vsplit := repeat match goal with |- _ /\ _ => split end; vm_compute; reflexivity.
+
+(* the store of fake.rs is a map over (bucket, key) slots: put and delete act on one slot *)
+Theorem c19_store_slots :
+  forall (ms : mstore) (b k v b2 k2 : list N),
+    ms_get (ms_put ms b k v) b k = Some v /\
+    ms_get (ms_delete ms b k) b k = None /\
+    ((b2, k2) <> (b, k) ->
+     ms_get (ms_put ms b k v) b2 k2 = ms_get ms b2 k2 /\
+     ms_get (ms_delete ms b k) b2 k2 = ms_get ms b2 k2).
+Proof.
+  intros ms b k v b2 k2. split; [exact (ms_get_put_same ms b k v)|].
+  split; [exact (ms_get_delete_same ms b k)|]. intros Hne.
+  split; [exact (ms_get_put_other ms b k v b2 k2 Hne)|exact (ms_get_delete_other ms b k b2 k2 Hne)].
+Qed.
+
+Example c19_store_slots_ex :
+  let ms := ms_put (ms_put [] (str "a") (str "b/c") [1]) (str "a/b") (str "c") [2] in
+  (str "a/b", str "c") <> (str "a", str "b/c") /\
+  ms_get ms (str "a") (str "b/c") = Some [1] /\ ms_get ms (str "a/b") (str "c") = Some [2] /\
+  ms_get (ms_delete ms (str "a") (str "b/c")) (str "a/b") (str "c") = Some [2] /\
+  ms_keys (ms_delete ms (str "a") (str "b/c")) (str "a") = Some [] /\
+  ms_keys ms (str "nobucket") = None.
+Proof. cbv zeta. split; [discriminate|]. vsplit. Qed.
+
+(* object_exists agrees with what list_objects shows *)
+Theorem c19_exists_iff_listed :
+  forall (ms : mstore) (b k : list N),
+    ms_exists ms b k = true <-> exists ks, ms_keys ms b = Some ks /\ In k ks.
+Proof. exact ms_exists_iff_listed. Qed.
+
+Example c19_exists_iff_listed_ex :
+  ms_exists (ms_put [] (str "b") (str "k") []) (str "b") (str "k") = true /\
+  ms_exists (ms_delete (ms_put [] (str "b") (str "k") []) (str "b") (str "k")) (str "b") (str "k") = false.
+Proof. vsplit. Qed.
+
+(* round trip in ANY bucket of ANY store *)
+Theorem c19_bucket_roundtrip :
+  forall (R : Type) (ser : R -> list N) (de : list N -> option R)
+         (enc : codec -> list N -> list N) (dec : codec -> list N -> option (list N)),
+    (forall c b, dec c (enc c b) = Some b) ->
+    forall (ms : mstore) (b k : list N) (rs : list R),
+      Forall (record_ok R ser de) rs ->
+      ms_read de dec (ms_write ser enc ms b k rs) b k = Ok rs.
+Proof. exact ms_roundtrip. Qed.
+
+Example c19_bucket_roundtrip_ex :
+  let ms := ms_write ex_ser ex_enc (ms_write ex_ser ex_enc [] (str "b") (str "k.gz") [true])
+                     (str "b2") (str "k.gz") [false; false] in
+  Forall (record_ok bool ex_ser ex_de) [false; false] /\
+  ms_read ex_de ex_dec ms (str "b") (str "k.gz") = Ok [true] /\
+  ms_read ex_de ex_dec ms (str "b2") (str "k.gz") = Ok [false; false] /\
+  ms_read ex_de ex_dec ms (str "b3") (str "k.gz") = Err NotFound.
+Proof. cbv zeta. split; [repeat constructor|]. vsplit. Qed.
+
+(* buckets are isolated: a write or a delete in one bucket changes no read, no expansion and no
+   glob read in another *)
+Theorem c19_bucket_isolation :
+  forall (R : Type) (ser : R -> list N) (de : list N -> option R)
+         (enc : codec -> list N -> list N) (dec : codec -> list N -> option (list N))
+         (ms : mstore) (b k : list N) (rs : list R) (b2 k2 p : list N),
+    b2 <> b ->
+    let w := ms_write ser enc ms b k rs in
+    let d := ms_delete ms b k in
+    ms_read de dec w b2 k2 = ms_read de dec ms b2 k2 /\
+    ms_expand w b2 p = ms_expand ms b2 p /\
+    ms_read_glob de dec w b2 p = ms_read_glob de dec ms b2 p /\
+    ms_read de dec d b2 k2 = ms_read de dec ms b2 k2 /\
+    ms_expand d b2 p = ms_expand ms b2 p /\
+    ms_read_glob de dec d b2 p = ms_read_glob de dec ms b2 p.
+Proof. exact ms_bucket_isolation. Qed.
+
+Example c19_bucket_isolation_ex :
+  let ms := ms_write ex_ser ex_enc [] (str "a/b") (str "c") [true] in
+  let w := ms_write ex_ser ex_enc ms (str "a") (str "b/c") [false] in
+  str "a/b" <> str "a" /\
+  ms_expand w (str "a/b") (str "**") = Ok [str "c"] /\
+  ms_expand w (str "a") (str "**") = Ok [str "b/c"] /\
+  ms_read_glob ex_de ex_dec w (str "a/b") (str "*") = Ok [true].
+Proof. cbv zeta. split; [discriminate|]. vsplit. Qed.
+
+(* delete: the object is gone, the bucket stays (expansion is Ok, without that key, even when it
+   was the last object); deleting from a bucket that does not exist does not create it *)
+Theorem c19_delete :
+  forall (R : Type) (de : list N -> option R) (dec : codec -> list N -> option (list N))
+         (ms : mstore) (b k p : list N),
+    ms_read de dec (ms_delete ms b k) b k = Err NotFound /\
+    (forall ks, ms_keys ms b = Some ks ->
+       ms_expand (ms_delete ms b k) b p =
+         Ok (expand_ref (filter (fun k' => negb (list_eqb k k')) ks) p) /\
+       (forall k', In k' (expand_ref (filter (fun k' => negb (list_eqb k k')) ks) p) <->
+                   k' <> k /\ In k' ks /\ glob_match p k' = true)) /\
+    (ms_keys ms b = None -> ms_expand (ms_delete ms b k) b p = Err NotFound).
+Proof.
+  intros R de dec ms b k p. split; [exact (ms_read_deleted R de dec ms b k)|].
+  split; [exact (ms_expand_after_delete ms b k p)|exact (ms_delete_no_bucket ms b k p)].
+Qed.
+
+Example c19_delete_ex :
+  let ms := ms_write ex_ser ex_enc [] (str "b") (str "only") [true] in
+  let d := ms_delete ms (str "b") (str "only") in
+  ms_keys ms (str "b") = Some [str "only"] /\
+  ms_expand d (str "b") (str "**") = Ok [] /\
+  ms_expand_required d (str "b") (str "**") = Err NotFound /\
+  ms_read ex_de ex_dec d (str "b") (str "only") = Err NotFound /\
+  ms_expand (ms_delete [] (str "b") (str "only")) (str "b") (str "**") = Err NotFound /\
+  ms_read ex_de ex_dec (ms_write ex_ser ex_enc d (str "b") (str "only") [false]) (str "b") (str "only")
+    = Ok [false].
+Proof. cbv zeta. vsplit. Qed.
+
+(* after ANY sequence of writes and deletes on any store, a slot reads as the LAST call that
+   named it says: the records of that write, NotFound after a delete, unchanged if untouched *)
+Theorem c19_session_read :
+  forall (R : Type) (ser : R -> list N) (de : list N -> option R)
+         (enc : codec -> list N -> list N) (dec : codec -> list N -> option (list N)),
+    (forall c b, dec c (enc c b) = Some b) ->
+    forall (ops : list (op R)) (ms : mstore) (b k : list N),
+      Forall (op_ok R ser de) ops ->
+      ms_read de dec (run_ops ser enc ms ops) b k =
+        match last_on ops b k None with
+        | Some (Some rs) => Ok rs
+        | Some None => Err NotFound
+        | None => ms_read de dec ms b k
+        end.
+Proof. exact session_read. Qed.
+
+Definition ex_ops : list (op bool) :=
+  [OWrite (str "b") (str "k.gz") [true; true]; OWrite (str "b2") (str "k.gz") [false];
+   ODelete (str "b") (str "k.gz"); OWrite (str "b") (str "j") [true];
+   OWrite (str "b") (str "k.gz") [false; true]; ODelete (str "b2") (str "k.gz");
+   ODelete (str "b3") (str "x")].
+
+Example c19_session_read_ex :
+  Forall (op_ok bool ex_ser ex_de) ex_ops /\
+  last_on ex_ops (str "b") (str "k.gz") None = Some (Some [false; true]) /\
+  last_on ex_ops (str "b2") (str "k.gz") None = Some None /\
+  last_on ex_ops (str "b") (str "never") None = None /\
+  ms_read ex_de ex_dec (run_ops ex_ser ex_enc [] ex_ops) (str "b") (str "k.gz") = Ok [false; true] /\
+  ms_read ex_de ex_dec (run_ops ex_ser ex_enc [] ex_ops) (str "b2") (str "k.gz") = Err NotFound.
+Proof.
+  split; [repeat constructor|]. vsplit.
+Qed.
+
+(* ... and glob expansion on a store built from nothing by such a sequence: NotFound iff no
+   write ever went to the bucket (a delete creates none, and a bucket emptied by deletes stays);
+   otherwise the sorted list of exactly the matching keys whose last call was a write *)
+Theorem c19_session_expand :
+  forall (R : Type) (ser : R -> list N) (de : list N -> option R)
+         (enc : codec -> list N -> list N)
+         (ops : list (op R)) (b p : list N),
+    Forall (op_ok R ser de) ops ->
+    let ms := run_ops ser enc [] ops in
+    (existsb (writes_to b) ops = false -> ms_expand ms b p = Err NotFound) /\
+    (existsb (writes_to b) ops = true ->
+     exists ks, ms_expand ms b p = Ok (expand_ref ks p) /\ NoDup ks /\
+       forall k, In k ks <-> exists rs, last_on ops b k None = Some (Some rs)).
+Proof. exact session_expand. Qed.
+
+Example c19_session_expand_ex :
+  let ms := run_ops ex_ser ex_enc [] ex_ops in
+  ms_expand ms (str "b") (str "**") = Ok [str "j"; str "k.gz"] /\
+  ms_expand ms (str "b2") (str "**") = Ok [] /\
+  ms_expand ms (str "b3") (str "**") = Err NotFound /\
+  existsb (writes_to (R := bool) (str "b3")) ex_ops = false /\
+  existsb (writes_to (R := bool) (str "b2")) ex_ops = true.
+Proof. cbv zeta. vsplit. Qed.
+
+(* copy_object: an object written by write_cloud_jsonl_vec stays readable under a new key (in any
+   bucket) of the same codec class or with no codec suffix at all - the reader then detects the
+   codec from the signature of the bytes, which every encoder emits; nothing else changes.
+   A missing source is NotFound. *)
+Theorem c19_copy_readable :
+  forall (R : Type) (ser : R -> list N) (de : list N -> option R)
+         (enc : codec -> list N -> list N) (dec : codec -> list N -> option (list N)),
+    (forall c b, dec c (enc c b) = Some b) ->
+    (forall c x, magic_codec (enc c x) = Some c) ->
+    forall (ms : mstore) (sb sk db dk : list N) (rs : list R),
+      Forall (record_ok R ser de) rs ->
+      ms_get ms sb sk = Some (object_bytes ser enc sk rs) ->
+      writer_codec dk = writer_codec sk \/ writer_codec dk = None ->
+      exists ms', ms_copy ms sb sk db dk = Ok ms' /\ ms_read de dec ms' db dk = Ok rs /\
+                  (forall b2 k2, (b2, k2) <> (db, dk) -> ms_get ms' b2 k2 = ms_get ms b2 k2).
+Proof. exact copy_readable. Qed.
+
+Theorem c19_copy_missing :
+  forall (ms : mstore) (sb sk db dk : list N),
+    ms_get ms sb sk = None -> ms_copy ms sb sk db dk = Err NotFound.
+Proof. exact copy_missing. Qed.
+
+Example c19_copy_readable_ex :
+  let ms := ms_write ex_ser ex_enc [] (str "b") (str "k.gz") [true; false] in
+  (forall c x, magic_codec (ex_enc c x) = Some c) /\
+  ms_get ms (str "b") (str "k.gz") = Some (object_bytes ex_ser ex_enc (str "k.gz") [true; false]) /\
+  writer_codec (str "plain") = None /\ writer_codec (str "c.GZIP") = writer_codec (str "k.gz") /\
+  match ms_copy ms (str "b") (str "k.gz") (str "other") (str "plain") with
+  | Ok ms' => ms_read ex_de ex_dec ms' (str "other") (str "plain") = Ok [true; false]
+  | Err _ => False
+  end /\
+  match ms_copy ms (str "b") (str "k.gz") (str "b") (str "c.zst") with
+  | Ok ms' => ms_read ex_de ex_dec ms' (str "b") (str "c.zst") = Err InternalError
+  | Err _ => False
+  end /\
+  ms_copy ms (str "b") (str "missing") (str "b") (str "z") = Err NotFound.
+Proof.
+  cbv zeta. split; [intros [] x; reflexivity|]. vsplit.
+Qed.
+
+(* read_cloud_jsonl_vec accepts more than the writer produces: CR LF line ends, white-space-only
+   lines, JSON white space around a record, and a last record without line feed. Assumed of the
+   deserialiser: it skips JSON white space (space, tab, CR) around a document. *)
+Theorem c19_loose_text_read :
+  forall (R : Type) (ser : R -> list N) (de : list N -> option R),
+    (forall pre post l, forallb is_pad pre = true -> forallb is_pad post = true ->
+                        de (pre ++ l ++ post) = de l) ->
+    forall (dec : codec -> list N -> option (list N)) (st : store) (key : list N)
+           (items : list (item R)) (last : option R),
+      Forall (item_ok R ser de) items ->
+      match last with Some r => record_ok R ser de r | None => True end ->
+      reader_ext_codec key = None ->
+      magic_codec (loose_text ser items last) = None ->
+      get st key = Some (loose_text ser items last) ->
+      cloud_read de dec st key = Ok (loose_recs items last).
+Proof. exact loose_read. Qed.
+
+(* a deserialiser that ignores padding altogether *)
+Definition ex_de_pad (l : list N) : option bool := ex_de (filter (fun c => negb (is_pad c)) l).
+Definition ex_items : list (item bool) :=
+  [IBlank [] false; IRec [32; 32] true [9] true; IBlank [32; 13; 9] true; IRec [] false [13] false;
+   IBlank [] true].
+
+Lemma ex_de_pad_ok : forall pre post l,
+  forallb is_pad pre = true -> forallb is_pad post = true -> ex_de_pad (pre ++ l ++ post) = ex_de_pad l.
+Proof.
+  intros pre post l Hpre Hpost. unfold ex_de_pad. f_equal. rewrite !filter_app.
+  assert (E : forall w, forallb is_pad w = true -> filter (fun c => negb (is_pad c)) w = []).
+  { induction w as [|c w IH]; intros H; [reflexivity|]. cbn in H |- *.
+    apply andb_true_iff in H as [Hc Hw]. rewrite Hc. cbn. apply IH. exact Hw. }
+  rewrite (E pre Hpre), (E post Hpost), app_nil_r. reflexivity.
+Qed.
+
+Example c19_loose_text_read_ex :
+  (forall pre post l, forallb is_pad pre = true -> forallb is_pad post = true ->
+                      ex_de_pad (pre ++ l ++ post) = ex_de_pad l) /\
+  Forall (item_ok bool ex_ser ex_de_pad) ex_items /\ record_ok bool ex_ser ex_de_pad true /\
+  loose_text ex_ser ex_items (Some true) =
+    [10] ++ str "  true" ++ [9; 13; 10] ++ [32; 13; 9; 13; 10] ++ str "false" ++ [13; 10] ++ [13; 10] ++ str "true" /\
+  magic_codec (loose_text ex_ser ex_items (Some true)) = None /\
+  cloud_read ex_de_pad ex_dec [(str "t", loose_text ex_ser ex_items (Some true))] (str "t")
+    = Ok [true; false; true].
+Proof.
+  split; [exact ex_de_pad_ok|].
+  split; [repeat constructor|]. split; [split; vm_compute; reflexivity|].
+  vsplit.
+Qed.
+
+(* white-space-only lines are recognised over all of Unicode White_Space (what str::trim strips),
+   read off the UTF-8 bytes; any other ASCII first byte makes the line non-blank *)
+Theorem c19_blank_lines :
+  (forall chunks, Forall (fun c => In c ws_utf8) chunks -> is_blank (List.concat chunks) = true) /\
+  (forall b rest, b < 128 -> is_ws b = false -> is_blank (b :: rest) = false).
+Proof. split; [exact blank_of_ws_chunks|exact not_blank_ascii]. Qed.
+
+Example c19_blank_lines_ex :
+  Forall (fun c => In c ws_utf8) [[32]; [194; 160]; [227; 128; 128]; [226; 128; 131]; [9]] /\
+  is_blank [32; 194; 160; 227; 128; 128; 226; 128; 131; 9] = true /\
+  is_blank [226; 128; 139] = false /\ is_blank [239; 187; 191] = false /\ is_blank [194; 161] = false.
+Proof.
+  split; [repeat (apply Forall_cons; [cbn; repeat (first [left; reflexivity | right])|]); apply Forall_nil|].
+  vsplit.
+Qed.
+
+(* the merge sort the correspondence runs on large buckets is the same function as the model's
+   sort, hence the fast expansion is the model's expansion *)
+Theorem c19_merge_sort_is_sort :
+  (forall l : list (list N), msort_keys l = sort_keys l) /\
+  (forall (bucket : option (list (list N))) (p : list N), expand_fast bucket p = expand bucket p).
+Proof. split; [exact msort_keys_eq|exact expand_fast_eq]. Qed.
+
+Example c19_merge_sort_is_sort_ex :
+  msort_keys [str "part-10"; str "part-2"; str "part-1"; str "b"; str "a/"; str "a"; str "part-10/x"] =
+  [str "a"; str "a/"; str "b"; str "part-1"; str "part-10"; str "part-10/x"; str "part-2"].
+Proof. vm_compute. reflexivity. Qed.
